@@ -2,3 +2,6 @@ import NaunetModel.OdeGen
 import NaunetModel.Solve
 import NaunetModel.Network
 import NaunetModel.Window
+import NaunetModel.CExpr
+import NaunetModel.RateExpr
+import NaunetModel.Generated.Tables
